@@ -70,9 +70,15 @@ HttpHdrRangeSpec::parseInit(const char *field, int flen)
     if (flen < 2)
         return false;
 
+    // httpHeaderParseOffset() is strtoll(): it skips white space, accepts a sign and
+    // stops silently at the first non-digit. A position must be 1*DIGIT that ends
+    // where the spec says it ends, or the spec is syntactically invalid.
+    char *numberEnd = nullptr;
+
     /* is it a suffix-byte-range-spec ? */
     if (*field == '-') {
-        if (!httpHeaderParseOffset(field + 1, &length) || !known_spec(length))
+        if (!xisdigit(field[1]) || !httpHeaderParseOffset(field + 1, &length, &numberEnd) ||
+                numberEnd != field + flen || !known_spec(length))
             return false;
     } else
         /* must have a '-' somewhere in _this_ field */
@@ -80,7 +86,8 @@ HttpHdrRangeSpec::parseInit(const char *field, int flen)
             debugs(64, 2, "invalid (missing '-') range-spec near: '" << field << "'");
             return false;
         } else {
-            if (!httpHeaderParseOffset(field, &offset) || !known_spec(offset))
+            if (!xisdigit(*field) || !httpHeaderParseOffset(field, &offset, &numberEnd) ||
+                    numberEnd != p || !known_spec(offset))
                 return false;
 
             ++p;
@@ -89,7 +96,8 @@ HttpHdrRangeSpec::parseInit(const char *field, int flen)
             if (p - field < flen) {
                 int64_t last_pos;
 
-                if (!httpHeaderParseOffset(p, &last_pos) || !known_spec(last_pos))
+                if (!xisdigit(*p) || !httpHeaderParseOffset(p, &last_pos, &numberEnd) ||
+                        numberEnd != field + flen || !known_spec(last_pos))
                     return false;
 
                 // RFC 2616 s14.35.1 MUST: last-byte-pos >= first-byte-pos
